@@ -13,10 +13,20 @@
 (* VerifyAttached = TRUE: tickets attached to a proposal are verified and  *)
 (* dropped if any of them fails (the code after the fix); FALSE = they are *)
 (* merged and counted unverified (the code as found).                      *)
+(* Arrival order: a proposal may reach the node BEFORE the node has started *)
+(* the block's round (`started` = FALSE; processVerifyBlock, "got block     *)
+(* proposal before starting round"): the node then creates the round and   *)
+(* only stores/queues the block WITH the tickets it kept (VBE) - no merge,  *)
+(* no notarization check; whatever tickets stay on the stored block count  *)
+(* as soon as the next ticket arrives.  VerifyEarly = TRUE: the attached   *)
+(* tickets are verified on that path too (the code); FALSE = only on the   *)
+(* path of a started round (MC_Notarization_lateverify_demo.cfg shows the  *)
+(* violation).  A ticket message for a round not started yet starts it     *)
+(* (VerificationTicketReceiptHandler: getOrCreateRound).                   *)
 (***************************************************************************)
 EXTENDS Integers, Sequences, FiniteSets, TLC
 
-CONSTANTS Miner, Outsider, T, VerifyAttached, MaxMsgs, MaxSet,
+CONSTANTS Miner, Outsider, T, VerifyAttached, VerifyEarly, MaxMsgs, MaxSet,
           Rep      \* how many times each ticket of a message is repeated on the wire (a byzantine sender
                    \* may repeat tickets; merging de-duplicates by verifier, so repetition must not matter)
 
@@ -24,14 +34,15 @@ Ticket == [v : Miner \cup Outsider, q : {"ok", "bad"}]
 Good(t) == t.v \in Miner /\ t.q = "ok"
 TicketSets == {S \in SUBSET Ticket : Cardinality(S) <= MaxSet}
 
-VARIABLES known,    \* the node holds the block object
+VARIABLES started,  \* the node has started (created) the block's round
+          known,    \* the node holds the block object
           blockT,   \* tickets on the block object
           roundT,   \* verified tickets collected for a block the node does not hold yet
           notar,    \* the node treats the block as notarized
           msgs, hist
-vars == <<known, blockT, roundT, notar, msgs, hist>>
+vars == <<started, known, blockT, roundT, notar, msgs, hist>>
 
-Init == known = FALSE /\ blockT = {} /\ roundT = {} /\ notar = FALSE /\ msgs = 0 /\ hist = <<>>
+Init == started \in BOOLEAN /\ known = FALSE /\ blockT = {} /\ roundT = {} /\ notar = FALSE /\ msgs = 0 /\ hist = <<>>
 
 Verifiers(S) == {t.v : t \in S}
 \* merging dedups by verifier id, keeping what the block already has
@@ -42,14 +53,25 @@ AllVerify(S) == \A t \in S : Good(t)
 
 Sent == msgs < MaxMsgs /\ msgs' = msgs + 1
 
+Kept(S, rep, verify) == IF verify THEN (IF AllVerify(S) /\ rep = 1 THEN S ELSE {}) ELSE S   \* repeated tickets are rejected
+
 VB(S, rep) ==
-  /\ Sent /\ ~known
-  /\ LET kept == IF VerifyAttached THEN (IF AllVerify(S) /\ rep = 1 THEN S ELSE {}) ELSE S   \* repeated tickets are rejected
+  /\ Sent /\ ~known /\ started
+  /\ LET kept == Kept(S, rep, VerifyAttached)
          all  == Merge(kept, roundT) IN
        /\ blockT' = all /\ known' = TRUE
        /\ notar' = (Count(all) >= T)
-  /\ hist' = Append(hist, [m |-> "VB", s |-> S, rep |-> rep])
-  /\ UNCHANGED roundT
+  /\ hist' = Append(hist, [m |-> "VB", s |-> S, rep |-> rep, early |-> FALSE])
+  /\ UNCHANGED <<roundT, started>>
+
+\* the proposal arrives before the node started the round: the round is created and the block is stored
+\* and queued for verification with the attached tickets that were kept (roundT is empty: no round yet)
+VBE(S, rep) ==
+  /\ Sent /\ ~known /\ ~started
+  /\ started' = TRUE /\ known' = TRUE
+  /\ blockT' = Kept(S, rep, VerifyEarly)
+  /\ hist' = Append(hist, [m |-> "VB", s |-> S, rep |-> rep, early |-> TRUE])
+  /\ UNCHANGED <<roundT, notar>>
 
 TK(t) ==
   /\ Sent
@@ -57,7 +79,8 @@ TK(t) ==
      ELSE IF ~known THEN roundT' = roundT \cup {t} /\ UNCHANGED <<blockT, notar>>
      ELSE /\ blockT' = Merge(blockT, {t}) /\ UNCHANGED roundT
           /\ notar' = (notar \/ Count(blockT') >= T)
-  /\ hist' = Append(hist, [m |-> "TK", s |-> {t}, rep |-> 1])
+  /\ started' = TRUE      \* the receipt handler creates the round if need be
+  /\ hist' = Append(hist, [m |-> "TK", s |-> {t}, rep |-> 1, early |-> ~started])
   /\ UNCHANGED known
 
 NZ(S, rep) ==
@@ -72,14 +95,14 @@ NZ(S, rep) ==
                /\ blockT' = Merge(blockT, unk)
                /\ notar' = (Count(blockT') >= T)
           ELSE UNCHANGED <<blockT, notar>>
-  /\ hist' = Append(hist, [m |-> "NZ", s |-> S, rep |-> rep])
-  /\ UNCHANGED <<known, roundT>>
+  /\ hist' = Append(hist, [m |-> "NZ", s |-> S, rep |-> rep, early |-> FALSE])
+  /\ UNCHANGED <<known, roundT, started>>
 
-Next == (\E S \in TicketSets, rep \in Rep : VB(S, rep) \/ NZ(S, rep)) \/ (\E t \in Ticket : TK(t))
+Next == (\E S \in TicketSets, rep \in Rep : VB(S, rep) \/ VBE(S, rep) \/ NZ(S, rep)) \/ (\E t \in Ticket : TK(t))
 Spec == Init /\ [][Next]_vars
 
 GoodCount(S) == Cardinality({t.v : t \in {x \in S : Good(x)}})
 (* C31 *)
 NotarizedOnlyWithQuorum == notar => GoodCount(blockT) >= T
-View == <<known, blockT, roundT, notar, msgs>>
+View == <<started, known, blockT, roundT, notar, msgs>>
 =============================================================================
